@@ -16,12 +16,12 @@ from harness.common import exc_name, canon, jdump
 PID = "C03"
 TITLE = "Split.run follows its documented block/branch schedule for every branch mix"
 LEAN_MODULES = ["LenaModel.Props.C03", "LenaModel.Props.C03X", "LenaModel.Props.C03Zip", "LenaModel.Props.C03R",
-                "LenaModel.Props.C03A", "LenaModel.Props.C03G"]
+                "LenaModel.Props.C03A", "LenaModel.Props.C03G", "LenaModel.Props.C03Cp"]
 LEAN_SOURCES = ["LenaModel/Model/C03.lean", "LenaModel/Lemmas/C03.lean", "LenaModel/Props/C03.lean",
                 "LenaModel/Model/C03X.lean", "LenaModel/Lemmas/C03X.lean", "LenaModel/Props/C03X.lean",
                 "LenaModel/Model/C03Zip.lean", "LenaModel/Props/C03Zip.lean", "LenaModel/Model/C03Spec.lean", "LenaModel/Props/C03R.lean",
                 "LenaModel/Model/C03Exc.lean", "LenaModel/Model/C03G.lean", "LenaModel/Props/C03A.lean",
-                "LenaModel/Props/C03G.lean"]
+                "LenaModel/Props/C03G.lean", "LenaModel/Props/C03Cp.lean"]
 DRIVER = "drivers/C03.lean"
 THEOREMS = [
     "Lena.C03.loop_refines_spec",
@@ -111,6 +111,9 @@ THEOREMS = [
     "Lena.C03.interleaved_runs",
     "Lena.C03.interleaved_runs_outputs",
     "Lena.C03.interleaved_harness",
+    "Lena.C03.splitFillAll_append",
+    "Lena.C03.copied_fill_compute",
+    "Lena.C03.copied_fill_request",
 ]
 # true by definition, model-internal glue, or superseded by a `_partial` name: audited, not counted as obligations
 AUX_THEOREMS = [
@@ -1237,6 +1240,198 @@ def _rand_methods(rng, maxbr, maxn):
             "copy_buf": rng.random() < 0.5}
 
 
+# ---- op `copied`: a Split OBJECT that is a copy (copy.deepcopy of the Split, of a container holding it, of an outer
+# Split it is a branch of) of a fresh or partly filled Split, driven next to the original
+
+COPY_VIAS = ["deepcopy", "deepcopy", "in_list", "nested", "twice"]
+
+
+def _rand_copied(rng, maxbr, maxn):
+    """every Split object offers the methods with the meaning of ITS branches: the original is filled with `pre`
+    (and, fill/request, possibly asked once), copied, then copy and original are filled alternately with different
+    values (`rest` / `other`) and asked; or (drive=run) a fresh Split and its copy run on different flows"""
+    r = rng.random()
+    pre, rest, other = _rand_flow(rng, 3), _rand_flow(rng, maxn - 3), [20 + x for x in _rand_flow(rng, 3)]
+    n = len(pre) + max(len(rest), len(other))
+    case = {"op": "copied", "copy_buf": rng.random() < 0.5, "pre": pre, "rest": rest, "other": other,
+            "via": rng.choice(COPY_VIAS), "pre_request": rng.random() < 0.5}
+    if r < 0.75:
+        kinds = ("fc", "sum") if rng.random() < 0.5 else ("fr",)
+        case["drive"] = "methods"
+        l = rng.randint(1, maxbr)
+    else:
+        kinds = ("src", "fc", "fr", "sq", "sum")
+        case["drive"] = "run"
+        case["pre"] = []
+        case["bufsize"] = rng.choice([None, 1, 2, 3])
+        if case["via"] == "nested":
+            case["via"] = "deepcopy"
+        l = rng.randint(0, maxbr)
+    brs = []
+    while len(brs) < l:
+        sp = _rand_spec(rng, n, kinds, pp=False)
+        if not _has_cache(sp):
+            brs.append(sp)
+    case["brs"] = brs
+    return case
+
+
+def _copy_of(case, s):
+    import copy
+    via = case["via"]
+    if via == "in_list":
+        a, b = copy.deepcopy([s, s])
+        return a if a is b else None
+    if via == "twice":
+        return copy.deepcopy(copy.deepcopy(s))
+    return copy.deepcopy(s)  # "deepcopy", and "nested" (there `s` is the outer Split)
+
+
+def _copied_kind(case):
+    kinds = {KIND[sp["k"]] for sp in case["brs"]}
+    return kinds.pop() if len(kinds) == 1 else None
+
+
+def _copied_play(case, fill, result, orig, mkcopy):
+    """the history of a `copied` case with drive=methods, over abstract objects: fill(o, x) -> True when the
+    object signalled LenaStopFill, result(o) -> list.  Filling an object ends at its first stop signal (as in op
+    `methods`).  Returns ({"stopped", "outs"} of the copy, the same of the original)."""
+    fr = _copied_kind(case) == "fill_request"
+
+    def fill_all(o, xs, h):
+        for x in xs:
+            if h["stopped"]:
+                return
+            h["stopped"] = fill(o, x)
+    ho = {"stopped": False, "outs": []}
+    fill_all(orig, case["pre"], ho)
+    asked = fr and case["pre_request"]
+    if asked:
+        ho["outs"].append(result(orig))
+    dup = mkcopy(orig)
+    hd = {"stopped": ho["stopped"], "outs": list(ho["outs"])}
+    if asked and ho["stopped"]:
+        return hd, ho  # as in op `methods`: nothing is done after the request() that follows a stop signal
+    rest, other = case["rest"], case["other"]
+    for i in range(max(len(rest), len(other))):  # alternately: cross-talk in either direction shows
+        fill_all(dup, rest[i:i + 1], hd)
+        fill_all(orig, other[i:i + 1], ho)
+    hd["outs"].append(result(dup))
+    ho["outs"].append(result(orig))
+    return hd, ho
+
+
+def _copied_impl(case):
+    import lena.core as lc
+    specs = case["brs"]
+    log = []
+    try:
+        s = lc.Split(_build(specs, log), bufsize=case.get("bufsize"), copy_buf=case["copy_buf"])
+        if case["via"] == "nested":
+            s = lc.Split([s], copy_buf=case["copy_buf"])
+    except Exception as e:
+        return {"e": exc_name(e), "phase": "init"}
+    if case["drive"] == "run":
+        try:
+            dup = _copy_of(case, s)
+        except Exception as e:
+            return {"e": exc_name(e), "phase": "copy"}
+        res = {}
+        for key, o, flow in (("dup", dup, case["rest"]), ("orig", s, case["other"])):
+            out = []
+            try:
+                _drain(o.run(_ReList(flow)), out)
+                res[key] = {"out": canon(out)}
+            except Exception as e:
+                res[key] = {"e": exc_name(e), "out": canon(out)}
+        return res
+    kind = _copied_kind(case)
+    meth = "compute" if kind == "fill_compute" else "request"
+    res = {"offered": [hasattr(s, "fill"), hasattr(s, meth)]}
+    if not all(res["offered"]):
+        return res
+
+    def fill(o, x):
+        try:
+            o.fill(x)
+        except lc.LenaStopFill:
+            return True
+        return False
+
+    def mkcopy(o):
+        d = _copy_of(case, o)
+        res["copy_offered"] = [hasattr(d, "fill"), hasattr(d, meth)]
+        return d
+    try:
+        hd, ho = _copied_play(case, fill, lambda o: canon(list(getattr(o, meth)())), s, mkcopy)
+    except Exception as e:
+        res.update({"e": exc_name(e), "phase": "methods"})
+        return res
+    res["dup"], res["orig"] = hd, ho
+    return res
+
+
+def _copied_blocks(case, which):
+    """the fills of one object of a `copied` case as the blocks of op `methods` (a request() after each block)"""
+    tail = case["rest"] if which == "dup" else case["other"]
+    if _copied_kind(case) == "fill_request" and case["pre_request"]:
+        return [case["pre"], tail]
+    return [case["pre"] + tail]
+
+
+def _copied_what(case):
+    w = f"Split({[_show(s) for s in case['brs']]}, copy_buf={case['copy_buf']})"
+    if case["via"] == "nested":
+        w = f"Split([{w}], copy_buf={case['copy_buf']})"
+    return w
+
+
+def _oracle_copied(case, res):
+    specs = case["brs"]
+    what = _copied_what(case)
+    how = {"deepcopy": "copy.deepcopy(s)", "in_list": "copy.deepcopy([s, s])[0]", "nested": "copy.deepcopy(s)",
+           "twice": "copy.deepcopy(copy.deepcopy(s))"}[case["via"]]
+    if "e" in res:
+        return f"[copied-raised] s = {what}; {how}; {case['drive']}: raised {res['e']} ({res['phase']})"
+    if case["drive"] == "run":
+        for key, flow in (("dup", case["rest"]), ("orig", case["other"])):
+            exp = canon(ref_run(specs, case["bufsize"], flow)[0])
+            if res[key] != {"out": exp}:
+                return (f"[copied-run] s = {what} (bufsize={case['bufsize']}); d = {how}; d.run({case['rest']}) then "
+                        f"s.run({case['other']}): the {'copy' if key == 'dup' else 'original'} yields {res[key]}, "
+                        f"the documented schedule of its flow gives {exp}")
+        return None
+    if res["offered"] != [True, True] or res.get("copy_offered") != [True, True]:
+        return (f"[copied-offered] s = {what}: branches of the one type {_copied_kind(case)}; s offers [fill, "
+                f"compute/request] = {res['offered']}, the copy {how}: {res.get('copy_offered')}")
+    meth = "compute" if _copied_kind(case) == "fill_compute" else "request"
+    log = []
+    els_d = [_mk_el(sp, i, log) for i, sp in enumerate(specs)]
+    els_o = [_mk_el(sp, i, log) for i, sp in enumerate(specs)]
+    # the branches of the copy are copies of the original's branches: their own objects with the state the
+    # original's had - i.e. the same elements with the same fills replayed
+    exp = {}
+    for key, els in (("dup", els_d), ("orig", els_o)):
+        h = {"stopped": False, "outs": []}
+        for blk in _copied_blocks(case, key):
+            h["stopped"] = _ref_fill_all(els, blk)
+            if meth == "request":
+                h["outs"].append(canon([v for el in els for v in el.request()]))
+            if h["stopped"]:
+                break
+        if meth == "compute":
+            h["outs"].append(canon([v for el in els for v in el.compute()]))
+        exp[key] = h
+    for key in ("dup", "orig"):
+        if res[key] != exp[key]:
+            return (f"[copied-methods] s = {what} filled with {case['pre']}"
+                    f"{', request(),' if meth == 'request' and case['pre_request'] else ''} then d = {how}; d filled "
+                    f"with {case['rest']}, s with {case['other']} (alternately), then {meth}(): the "
+                    f"{'copy d' if key == 'dup' else 'original s'} gives {res[key]}, its branches filled with "
+                    f"{_copied_blocks(case, key)} give {exp[key]}")
+    return None
+
+
 def _rand_zip(rng, maxbr, maxn):
     r = rng.random()
     flow = _rand_flow(rng, maxn)
@@ -1367,6 +1562,7 @@ def gen_cases(ctx):
         exh = {0: 3, 1: 3, 2: 3, 3: 2, 4: 2}
         n_run, n_meth, n_zip, n_runx, n_zctx, n_real = 900, 500, 400, 900, 400, 500
         n_inter, n_long = 500, 10
+        n_copied = 400
         maxbr, maxn = 4, 8
         spec_every, spec_p = 1, 1.0
     else:
@@ -1375,6 +1571,7 @@ def gen_cases(ctx):
         exh = {0: 4, 1: 4, 2: 4, 3: 4, 4: 3}
         n_run, n_meth, n_zip, n_runx, n_zctx, n_real = 24000, 8000, 6000, 15000, 6000, 12000
         n_inter, n_long = 10000, 150
+        n_copied = 8000
         maxbr, maxn = 5, 8
         spec_every, spec_p = 8, 0.3
     ctx.exhaustive = False  # the random part is sampled
@@ -1394,6 +1591,7 @@ def gen_cases(ctx):
         _repeat(n_inter, _rand_inter, sub(), 4, 6),
         _repeat(n_long, _rand_long, sub()),
         [{"op": "exc", "name": nm} for nm in EXC_NAMES],
+        _repeat(n_copied, _rand_copied, sub(), 4, 8),
     ]
     return _roundrobin(streams)
 
@@ -2097,6 +2295,8 @@ def _run_impl(case):
                          for j, bs in enumerate(case["bufsizes"])]}
     if op == "methods":
         return _methods_impl(case)
+    if op == "copied":
+        return _copied_impl(case)
     if op == "runx":
         return _runx_impl(case)
     if op == "zipctx":
@@ -2135,6 +2335,13 @@ def model_requests(case):
                  "bufsizes": case["bufsizes"], "copy_buf": case["copy_buf"], "spec": bool(case.get("spec"))}]
     if op == "methods":
         return [{"op": "methods", "brs": [_mspec(s) for s in case["brs"]], "blocks": case["blocks"]}]
+    if op == "copied":
+        # a copy is a Split with the state the original had: the model's Split over the same history
+        brs = [_mspec(s) for s in case["brs"]]
+        if case["drive"] == "run":
+            return [{"op": "run", "brs": brs, "flow": flow, "bufsizes": [case["bufsize"]], "copy_buf": case["copy_buf"],
+                     "spec": False} for flow in (case["rest"], case["other"])]
+        return [{"op": "methods", "brs": brs, "blocks": _copied_blocks(case, key)} for key in ("dup", "orig")]
     if op == "realfc":
         return []  # values are changed in place by the branches: outside the value model (aliasing: C04); oracle only
     if op == "exc":
@@ -2337,10 +2544,38 @@ def _cmp_runx(case, res, m):
     return None
 
 
+def _cmp_copied(case, res, replies):
+    import json
+    if "e" in res:
+        return None  # the oracle reports it
+    for key, m in zip(("dup", "orig"), replies):
+        if "err" in m:
+            return f"model driver error: {m['err']}"
+        if "z" in m:
+            m = json.loads(m["z"])
+        who = "copy" if key == "dup" else "original"
+        if case["drive"] == "run":
+            mr = m["runs"][0]
+            if res[key].get("out") != mr["out"] or "e" in res[key]:
+                return f"{who}: impl {res[key]} vs model {mr['out']}"
+            continue
+        if key not in res:
+            return None  # methods not offered: the oracle reports it
+        mm = m["fc"] if _copied_kind(case) == "fill_compute" else m["fr"]
+        if mm is None:
+            return f"model offers no common-type methods: {m['methods']}"
+        got = {"stopped": mm["stopped"], "outs": [mm["out"]] if "out" in mm else mm["outs"]}
+        if res[key] != got:
+            return f"{who}: impl {res[key]} vs model (a Split with the same history) {got}"
+    return None
+
+
 def compare(case, res, replies):
     import json
     op = case["op"]
     res = _unp(res)
+    if op == "copied":
+        return _cmp_copied(case, res, replies)
     m = replies[0]
     if "err" in m:
         return f"model driver error: {m['err']}"
@@ -2812,6 +3047,8 @@ def oracle(case, res):
         return _oracle_run(case, res)
     if op == "methods":
         return _oracle_methods(case, res)
+    if op == "copied":
+        return _oracle_copied(case, res)
     if op == "runx":
         return _oracle_runx(case, res)
     if op == "zipctx":
@@ -2869,12 +3106,24 @@ def nontrivial(case, res):
         return bool(res.get("fc") or res.get("fr") or (isinstance(res.get("call"), list) and res["call"]))
     if op == "zip":
         return "e" in res or bool(res.get("r"))
+    if op == "copied":
+        return bool(case["brs"]) and bool(case["rest"] or case["other"])
     return True
 
 
 def classify(case, res):
     res = _unp(res)
     op = case["op"]
+    if op == "copied":
+        if "e" in res:
+            return ["copied:error"]
+        labels = [f"copied:{case['drive']}", f"copied:via={case['via']}", f"copied:copy_buf={case['copy_buf']}"]
+        if case["drive"] == "methods":
+            labels.append("copied:" + (_copied_kind(case) or "mixed"))
+            labels.append("copied:partly-filled" if case["pre"] else "copied:fresh")
+            if res.get("dup", {}).get("stopped"):
+                labels.append("copied:stopfill")
+        return labels
     if op == "run":
         ks = sorted(set(sp["k"] for sp in case["brs"]))
         labels = [f"run:len={len(case['brs'])}", f"run:flow={min(len(case['flow']), 5)}", "run:kinds=" + "+".join(ks)]
@@ -2944,6 +3193,24 @@ def signature(case, failure):
 
 def shrink(case):
     op = case["op"]
+    if op == "copied":
+        brs = case["brs"]
+        for i in range(len(brs)):
+            if len(brs) > 1 or case["drive"] == "run":
+                yield dict(case, brs=brs[:i] + brs[i + 1:])
+        for k in ("pre", "rest", "other"):
+            for i in range(len(case[k])):
+                yield dict(case, **{k: case[k][:i] + case[k][i + 1:]})
+        if case["via"] != "deepcopy":
+            yield dict(case, via="deepcopy")
+        if case["pre_request"]:
+            yield dict(case, pre_request=False)
+        for i, sp in enumerate(brs):
+            if sp.get("form", "el") != "el" and sp["k"] != "src":
+                yield dict(case, brs=brs[:i] + [dict(sp, form="el")] + brs[i + 1:])
+            if sp.get("stop") is not None:
+                yield dict(case, brs=brs[:i] + [dict(sp, stop=None)] + brs[i + 1:])
+        return
     if op in ("run", "methods", "zip", "runx"):
         brs = case["brs"]
         for i in range(len(brs)):
@@ -3084,6 +3351,15 @@ TRUSTED = [
     "JSON line protocol encoders (harness/props/c03.py, drivers/C03.lean)",
 ]
 ASSUMPTIONS = [
+    "JUDGEMENT (seed round L): 'a Split whose branches share one type offers that type's methods with the same "
+    "meaning' is claimed for every Split OBJECT, also one made by copy.deepcopy from a fresh or partly filled Split "
+    "(lena makes such copies itself: SplitIntoBins deep-copies its sequence once per bin): fill of the copy fills the "
+    "copy's branches, compute()/request() of the copy yield their results, the original is not touched - for both "
+    "copy_buf values (the harness elements of op copied never change a value, so copy_buf=False makes no difference "
+    "to the values). The branches of a deep copy are taken to be objects of their own in the state the original's "
+    "branches had (that is what copy.deepcopy means for the harness elements and lena.math.Sum). Not claimed: "
+    "copy.copy (the shallow copy shares the branch objects) and pickle round trips (harness elements are not "
+    "importable by name)",
     "a branch is an object whose methods are functions of its own state: two branches do not share an element "
     "object or other state (aliasing between branches: C04)",
     "copy_buf / copy.deepcopy are NOT verified in Lean: in the value model a copy is the same value, so the Lean "
@@ -3169,6 +3445,13 @@ RULE = ("op=run: one case = (branch list, flow, copy_buf) run under EVERY bufsiz
         "and mixed branch lists; op=zipctx: Zip over canned results with random contexts over {a,b,zip}, fields as "
         "list/str/none of every length, reset(); op=realfc (oracle only): common-type Splits of real lena accumulators (Count, Sum, Mean, StoreFilled) and of harness elements that change IN PLACE every mutable container reachable from a value (data part, context, nested lists/dicts) / keep the value objects they are filled with, on (data, context) values whose data is an int, a list, a nested list or a dict, and on bare mutable values: with copy_buf=True fill-all-then-compute (block-wise fill then request) == run(flow) == the same Split nested in another one == the branches driven alone on their own copies; op=init: attributes present but not callable, lists of elements, is_cache flags, every capability subset as a single argument, tuples over "
         "16 representative capability sets, pairs, random lists, check_sequence_type predicates called directly; "
+        "op=copied: a Split OBJECT obtained by copy.deepcopy (of the Split, of a list holding it twice, of an outer Split "
+        "it is the branch of, of a copy) from a fresh or partly filled common-type Split (fill/request: possibly asked "
+        "once before), both copy_buf values, every argument form, LenaStopFill at random indices; copy and original "
+        "are then filled ALTERNATELY with different values and asked: each must give the results of its own branches "
+        "over its own history (oracle: fresh reference elements replayed; model: splitFillAll/splitCompute/"
+        "splitFrBlocks over the history); drive=run: a fresh Split of any kind mix and its copy run on different flows "
+        "(400 cases in quick, 8000 in thorough); "
         "corpus/C03: regression cases. "
         "Non-trivial: >= 2 branches and a non-empty output (run), a non-empty result or an exception (others).")
 LEVEL_TEXT = ("Lean 4 theorems about a transcribed model of Split.run (block loop, index loop with in-place deletion, "
